@@ -135,6 +135,9 @@ class Ops:
         if isinstance(inner, SV) and inner.sort.name != v.sort.name:
           return self.coerce(inner, U)
       raise OutsideSubset(f'cannot coerce {v.sort} to {U}')
+    hooks = getattr(U, 'coerce_from', None)
+    if hooks and isinstance(v, SV) and v.sort.name in hooks:
+      return hooks[v.sort.name](self, v)
     if isinstance(v, PyTuple):
       for c in U.ctors.values():
         if c.tuple_like and len(c.fields) == len(v):
@@ -145,7 +148,7 @@ class Ops:
           return SV(U, U.mk(c.name, *ts))
     # constants first
     for c in U.ctors.values():
-      if c.is_const is None and v is NONEV and 'NoneType' in c.pytypes:
+      if c.is_const is None and not c.fields and v is NONEV and 'NoneType' in c.pytypes:
         return SV(U, U.mk(c.name))
       if c.is_const is Ellipsis and v is ELLIPSIS:
         return SV(U, U.mk(c.name))
@@ -158,6 +161,8 @@ class Ops:
       if s is not None and (fs is s or fs.name == s.name):
         cands.append((0, c, fs))
       elif isinstance(v, Lit) and isinstance(fs, (Opaque, StrSort)) and 'str' in c.pytypes:
+        cands.append((0, c, fs))
+      elif v is NONEV and 'NoneType' in c.pytypes and isinstance(fs, Opaque) and fs.nullable:
         cands.append((0, c, fs))
       elif isinstance(fs, IntSort) and s is not None and isinstance(s, IntSort):
         cands.append((1, c, fs))
@@ -418,6 +423,10 @@ class Ops:
       U = v.sort
       hits = [U.is_(c.name, v.t) for c in U.ctors.values() if names & set(c.pytypes)]
       return z3.Or(*hits) if hits else zbool(False)
+    if isinstance(v, SV) and isinstance(v.sort, Opaque) and v.sort.nullable and v.sort.is_str:
+      is_none = v.t == v.sort.literal(None)
+      strs = {'str', 'typing.Collection', 'Collection'}
+      return z3.Or(z3.And(zbool(bool(names & strs)), z3.Not(is_none)), z3.And(zbool('NoneType' in names), is_none))
     py = self.python_types_of(v)
     return zbool(bool(names & py))
 
